@@ -3,19 +3,20 @@ import Rs1090.Model.Tui
 namespace Rs1090.Driver.C17
 open Rs1090 Rs1090.Model.Tui Rs1090.Driver
 
-def parseAll (ws : List String) : Option (Ui × List Event) :=
+def parseAll (ws : List String) : Option (Ui × List Tok) :=
   match ws with
   | [] => none
   | i :: evs => do
     let ui ← parseInit i
-    let es ← evs.mapM parseEvent
+    let es ← evs.mapM parseTok
     pure (ui, es)
 
-/-- `tui  <n>[:<sel>] <ev>…` : the UI state after every event (` | `-separated; `panic` ends it)
-    `tuis <n>[:<sel>] <ev>…` : only the last element of that trace (one BFS transition). -/
+/-- `tui  <n>[:<sel>] <step>…` : the UI state after every step (` | `-separated; `panic` ends it);
+       a step is an event token, `Draw<m>:<k>` (redraw with `k` rows) or `Term<w>x<h>`
+    `tuis <n>[:<sel>] <step>…` : only the last element of that trace (one BFS transition). -/
 def handle : List String → Option String
-  | "tui" :: rest => (parseAll rest).map fun (ui, es) => " | ".intercalate (trace true ui es)
-  | "tuis" :: rest => (parseAll rest).bind fun (ui, es) => (trace true ui es).getLast?
+  | "tui" :: rest => (parseAll rest).map fun (ui, es) => " | ".intercalate (traceToks .driverDefault ui es)
+  | "tuis" :: rest => (parseAll rest).bind fun (ui, es) => (traceToks .driverDefault ui es).getLast?
   | _ => none
 
 end Rs1090.Driver.C17
